@@ -237,6 +237,41 @@ def certificate(P, rules):
     return nullable, ranks, max(ranks or [0]) + 1, D
 
 
+def productive_order(P, rules):
+    """UNTRUSTED certificate for "every rule accepts at least one string": the rules in the order in which a least-fixpoint
+    iteration finds them productive (RFC reading: flags and exclusions play no part).  Lean's `prodWalk` re-checks every
+    step; a rule that is missing or listed too early is simply not added to the mask there and the obligation fails."""
+    idx = {id(r): k for k, r in enumerate(rules)}
+    done = [False] * len(rules)
+
+    def pr(p):
+        if isinstance(p, P.Rule):
+            return done[idx[id(p)]]
+        if isinstance(p, P.Alternation):
+            return any(pr(q) for q in p.parsers)
+        if isinstance(p, P.Concatenation):
+            return all(pr(q) for q in p.parsers)
+        if isinstance(p, P.Option):
+            return True
+        if isinstance(p, P.Repetition):
+            return p.repeat.min == 0 or (pr(p.element) and (p.repeat.max is None or p.repeat.min <= p.repeat.max))
+        if isinstance(p, P.Literal):
+            return (not isinstance(p.value, tuple)) or ord(p.value[0]) <= ord(p.value[1])
+        return False
+
+    order = []
+    changed = True
+    while changed:
+        changed = False
+        for k, r in enumerate(rules):
+            d = getattr(r, "definition", None)
+            if d is not None and not done[k] and pr(d):
+                done[k] = True
+                order.append(k)
+                changed = True
+    return order
+
+
 def closure(P, rules):
     """all Rule objects reachable from `rules` (definitions, exclusions), in discovery order"""
     enc = LeanEnc(P, rules)
@@ -282,7 +317,9 @@ def emit_ranked(name, const, rules, P):
             + grammar_defs(const, lines) +
             f"def {const}Names : List (String × Nat) := [{names}]\n\n"
             f"-- untrusted certificate (rules are listed in rank order; nullable rules as a bit mask), checked by Abnf.wfFast\n"
-            f"def {const}Mask : Nat := {mask}\ndef {const}D : Nat := {D2}\n\nend AbnfGen\n")
+            f"def {const}Mask : Nat := {mask}\ndef {const}D : Nat := {D2}\n\n"
+            f"-- untrusted certificate for productivity (order in which the rules are found to accept a string), checked by Abnf.prodWalk\n"
+            f"def {const}Prod : List Nat := [{', '.join(str(k) for k in productive_order(P, ordered))}]\n\nend AbnfGen\n")
     return write_if_changed(os.path.join(GEN_DIR, name + ".lean"), text), ordered
 
 
